@@ -4,6 +4,7 @@ import (
 	"fmt"
 	"time"
 
+	bnet "github.com/mosaicnetworks/babble/src/net"
 	_state "github.com/mosaicnetworks/babble/src/node/state"
 )
 
@@ -219,7 +220,11 @@ func runC14(cs CaseSpec) *CaseResult {
 			index = 100000 + rng.Intn(1000) // "higher than everyone"
 		}
 		round := 1 + rng.Intn(200)
-		ft := forgeResponse(rng, att, base, index, round)
+		faddr := ""
+		if i%5 == 4 {
+			faddr = byz.Addr
+		}
+		ft := forgeResponse(rng, att, base, index, round, faddr)
 		if ft == nil {
 			continue
 		}
@@ -227,6 +232,51 @@ func runC14(cs CaseSpec) *CaseResult {
 		signers := map[string]bool{}
 		for kx := range ft.Block.Signatures {
 			signers[kx] = true
+		}
+		if i%5 == 4 {
+			// a joining node (fast-sync enabled) whose join request landed on the
+			// forger: the join response itself names the forged set
+			jv := nw.addIdentity(fmt.Sprintf("c14joiner%d", i))
+			o := nw.DefaultOpts
+			o.FastSync = true
+			if err := nw.startNode(jv, o, clonePeers(lag.Core.Peers().Peers), clonePeers(nw.Genesis)); err == nil && jv.Node.GetState() == _state.Joining {
+				jv.Up = false
+				if !knownToVictim(jv, signers) {
+					nw.joinDirect = func(target string, args *bnet.JoinRequest, out *bnet.JoinResponse) error {
+						return wireCopy(&bnet.JoinResponse{FromID: byz.ID, Accepted: true, AcceptedRound: round, Peers: ft.Frame.Peers}, out)
+					}
+					g := guard(func() { jv.Node.VerifJoin() })
+					nw.joinDirect = nil
+					if !g.panicked && jv.Node.GetState() == _state.CatchingUp {
+						v = jv
+						res.count("forged_join_response_then_forged_fastforward", 1)
+						// the join response gives the node no reason to trust those keys
+						byz.Silent = false
+						byz.Responder = forgerResponder(byz, ft)
+						nw.FFServe = map[int]bool{byz.Idx: true}
+						var ferr error
+						g := guard(func() { ferr = jv.Node.VerifFastForward() })
+						nw.FFServe = nil
+						byz.Responder = nil
+						byz.Silent = true
+						res.Evaluations++
+						res.count("forged_responses_judged", 1)
+						adopted := false
+						if b, e := jv.Node.GetBlock(ft.Block.Index()); e == nil && !g.panicked && ferr == nil && normBody(b.Body) == normBody(ft.Block.Body) {
+							adopted = true
+						}
+						if adopted || jv.App.Restores > 0 {
+							nw.violate("C14", "C14:snapshot-endorsed-only-by-strangers-adopted",
+								fmt.Sprintf("a joining node whose join response (from the single peer that answered) named a self-made validator set then reset itself to block %d signed only by that set", ft.Block.Index()),
+								map[string]interface{}{"attacker_keys": k, "path": "join response + fast-forward from the same peer", "application_restored": jv.App.Restores})
+							return res
+						}
+						res.count("forged_refusals_state_unchanged", 1)
+						res.digest("c14j", cs.Seed, cs.Index, i)
+						continue
+					}
+				}
+			}
 		}
 		if knownToVictim(v, signers) {
 			continue
